@@ -333,25 +333,26 @@ package ristretto
 //@ rank defaultPolicy 3
 
 //@ spec inBucket[V any](m *expirationMap[V], b int64, k uint64) bool = gcHas(m.buckets, b) && gcHas(m.buckets[b], k)
+//@ spec fileBucket[V any](m *expirationMap[V], t time.Time) int64 = ite(storageBucket(t) <= m.lastCleanedBucketNum, m.lastCleanedBucketNum+1, storageBucket(t))
 //@ spec bucketConf[V any](m *expirationMap[V], b int64, k uint64) uint64 = m.buckets[b][k]
 
-//@ lockinv [C14,C08] expirationMap.RWMutex (m): m.buckets != nil && (forall b int64 :: gcHas(m.buckets, b) ==> m.buckets[b] != nil && gcAllocated(m.buckets[b])) && forall b1, b2 int64 :: gcHas(m.buckets, b1) && gcHas(m.buckets, b2) && b1 != b2 ==> !gcSameRef(m.buckets[b1], m.buckets[b2])
+//@ lockinv [C14,C08] expirationMap.RWMutex (m): m.buckets != nil && (forall b int64 :: gcHas(m.buckets, b) ==> m.buckets[b] != nil && gcAllocated(m.buckets[b])) && (forall b1, b2 int64 :: gcHas(m.buckets, b1) && gcHas(m.buckets, b2) && b1 != b2 ==> !gcSameRef(m.buckets[b1], m.buckets[b2])) && -(1<<62) < m.lastCleanedBucketNum && m.lastCleanedBucketNum < 1<<62 && (forall b int64 :: gcHas(m.buckets, b) ==> b > m.lastCleanedBucketNum)
 //@ guards m.buckets, m.buckets[*], m.buckets[*][*], m.lastCleanedBucketNum
 
 //@ func (m *expirationMap) add(key, conflict uint64, expiration time.Time)
 //@   atomic
 //@   requires bucketDurationSecs > 0
 //@   modifies m.buckets[*], m.buckets[*][*]
-//@   ensures [C14] #filed m != nil && !expiration.IsZero() ==> inBucket(m, storageBucket(expiration), key) && bucketConf(m, storageBucket(expiration), key) == conflict
-//@   ensures [C14] #frame m != nil ==> forall b int64, k uint64 :: (b != storageBucket(expiration) || k != key || expiration.IsZero()) ==> inBucket(m, b, k) == old(inBucket(m, b, k)) && (inBucket(m, b, k) ==> bucketConf(m, b, k) == old(bucketConf(m, b, k)))
+//@   ensures [C14] #filed m != nil && !expiration.IsZero() ==> inBucket(m, fileBucket(m, expiration), key) && bucketConf(m, fileBucket(m, expiration), key) == conflict
+//@   ensures [C14] #frame m != nil ==> forall b int64, k uint64 :: (b != fileBucket(m, expiration) || k != key || expiration.IsZero()) ==> inBucket(m, b, k) == old(inBucket(m, b, k)) && (inBucket(m, b, k) ==> bucketConf(m, b, k) == old(bucketConf(m, b, k)))
 
 //@ func (m *expirationMap) update(key, conflict uint64, oldExpTime, newExpTime time.Time)
 //@   atomic
 //@   requires bucketDurationSecs > 0
 //@   modifies m.buckets[*], m.buckets[*][*]
-//@   ensures [C14] #moved m != nil && !newExpTime.IsZero() ==> inBucket(m, storageBucket(newExpTime), key) && bucketConf(m, storageBucket(newExpTime), key) == conflict
-//@   ensures [C14] #removed m != nil && (newExpTime.IsZero() || storageBucket(newExpTime) != storageBucket(oldExpTime)) ==> !inBucket(m, storageBucket(oldExpTime), key)
-//@   ensures [C14] #frame m != nil ==> forall b int64, k uint64 :: k != key || (b != storageBucket(oldExpTime) && (b != storageBucket(newExpTime) || newExpTime.IsZero())) ==> inBucket(m, b, k) == old(inBucket(m, b, k)) && (inBucket(m, b, k) ==> bucketConf(m, b, k) == old(bucketConf(m, b, k)))
+//@   ensures [C14] #moved m != nil && !newExpTime.IsZero() ==> inBucket(m, fileBucket(m, newExpTime), key) && bucketConf(m, fileBucket(m, newExpTime), key) == conflict
+//@   ensures [C14] #removed m != nil && (newExpTime.IsZero() || fileBucket(m, newExpTime) != storageBucket(oldExpTime)) ==> !inBucket(m, storageBucket(oldExpTime), key)
+//@   ensures [C14] #frame m != nil ==> forall b int64, k uint64 :: k != key || (b != storageBucket(oldExpTime) && (b != fileBucket(m, newExpTime) || newExpTime.IsZero())) ==> inBucket(m, b, k) == old(inBucket(m, b, k)) && (inBucket(m, b, k) ==> bucketConf(m, b, k) == old(bucketConf(m, b, k)))
 
 //@ func (m *expirationMap) del(key uint64, expiration time.Time)
 //@   atomic
@@ -406,6 +407,17 @@ package ristretto
 //@   ensures [C02,C13] #removed old(gcHas(m.data, key)) && conflictOK(old(m.data[key]), conflict) ==> !gcHas(m.data, key) && result0 == old(m.data[key].conflict) && gcSameRef(result1, old(m.data[key].value))
 //@   ensures [C01,C02] #kept !(old(gcHas(m.data, key)) && conflictOK(old(m.data[key]), conflict)) ==> gcHas(m.data, key) == old(gcHas(m.data, key)) && sameEntry(m.data[key], old(m.data[key])) && result0 == 0 && gcSameRef(result1, zeroValue[V]())
 
+// The sweep's removal: only an entry whose currently stored expiration has passed.
+//@ func (m *lockedMap) delExpired(key, conflict uint64, now time.Time) (V, time.Time, bool)
+//@   atomic
+//@   requires m != nil && bucketDurationSecs > 0
+//@   modifies m.data[*], m.em.buckets[*][*]
+//@   ensures [C01,C13] #others forall k uint64 :: k != key ==> gcHas(m.data, k) == old(gcHas(m.data, k)) && sameEntry(m.data[k], old(m.data[k]))
+//@   ensures [C14] #only-expired result2 ==> old(gcHas(m.data, key)) && conflictOK(old(m.data[key]), conflict) && !old(m.data[key].expiration).IsZero() && !old(m.data[key].expiration).After(now)
+//@   ensures [C14,C02] #removed result2 ==> !gcHas(m.data, key) && gcSameRef(result0, old(m.data[key].value)) && result1 == old(m.data[key].expiration)
+//@   ensures [C14] #kept !result2 ==> gcHas(m.data, key) == old(gcHas(m.data, key)) && sameEntry(m.data[key], old(m.data[key]))
+//@   ensures [C14] #exact old(gcHas(m.data, key)) && conflictOK(old(m.data[key]), conflict) && !old(m.data[key].expiration).IsZero() && !old(m.data[key].expiration).After(now) ==> result2
+
 //@ func (m *lockedMap) Update(newItem *Item[V]) (V, bool)
 //@   atomic
 //@   requires m != nil && newItem != nil && bucketDurationSecs > 0
@@ -426,16 +438,19 @@ package ristretto
 //@ spec smEntry[V any](sm *shardedMap[V], key uint64) storeItem[V] = shardOf(sm, key).data[key]
 
 //@ func (sm *shardedMap) Get(key, conflict uint64) (V, bool)
+//@   lockof shardOf(sm, key)
 //@   requires wfSharded(sm)
 //@   ensures [C01] #stored result1 ==> smHas(sm, key) && gcSameRef(result0, smEntry(sm, key).value) && conflictOK(smEntry(sm, key), conflict) && smEntry(sm, key).key == key
 //@   ensures [C07] #live result1 ==> entryLive(smEntry(sm, key), gcNow())
 //@   ensures [C07] #notearly !result1 && smHas(sm, key) && conflictOK(smEntry(sm, key), conflict) ==> !entryLive(smEntry(sm, key), gcNow())
 
 //@ func (sm *shardedMap) Expiration(key uint64) time.Time
+//@   lockof shardOf(sm, key)
 //@   requires wfSharded(sm)
 //@   ensures [C07] result == smEntry(sm, key).expiration && (!smHas(sm, key) ==> result.IsZero())
 
 //@ func (sm *shardedMap) Set(i *Item[V])
+//@   lockof shardOf(sm, i.Key)
 //@   requires wfSharded(sm) && bucketDurationSecs > 0
 //@   modifies shardOf(sm, i.Key).data[*], sm.expiryMap.buckets[*], sm.expiryMap.buckets[*][*]
 //@   ensures [C01,C13] #others forall k uint64 :: i == nil || k != i.Key ==> smHas(sm, k) == old(smHas(sm, k)) && sameEntry(smEntry(sm, k), old(smEntry(sm, k)))
@@ -444,13 +459,24 @@ package ristretto
 //@   ensures [C13] #insert i != nil && !old(smHas(sm, i.Key)) ==> smHas(sm, i.Key) && isItem(smEntry(sm, i.Key), i)
 
 //@ func (sm *shardedMap) Del(key, conflict uint64) (uint64, V)
+//@   lockof shardOf(sm, key)
 //@   requires wfSharded(sm) && bucketDurationSecs > 0
 //@   modifies shardOf(sm, key).data[*], sm.expiryMap.buckets[*][*]
 //@   ensures [C01,C13] #others forall k uint64 :: k != key ==> smHas(sm, k) == old(smHas(sm, k)) && sameEntry(smEntry(sm, k), old(smEntry(sm, k)))
 //@   ensures [C02,C13] #removed old(smHas(sm, key)) && conflictOK(old(smEntry(sm, key)), conflict) ==> !smHas(sm, key) && result0 == old(smEntry(sm, key).conflict) && gcSameRef(result1, old(smEntry(sm, key).value))
 //@   ensures [C01,C02] #kept !(old(smHas(sm, key)) && conflictOK(old(smEntry(sm, key)), conflict)) ==> smHas(sm, key) == old(smHas(sm, key)) && sameEntry(smEntry(sm, key), old(smEntry(sm, key))) && result0 == 0 && gcSameRef(result1, zeroValue[V]())
 
+//@ func (sm *shardedMap) DelExpired(key, conflict uint64, now time.Time) (V, time.Time, bool)
+//@   lockof shardOf(sm, key)
+//@   requires wfSharded(sm) && bucketDurationSecs > 0
+//@   modifies shardOf(sm, key).data[*], sm.expiryMap.buckets[*][*]
+//@   ensures [C13] #others forall k uint64 :: k != key ==> smHas(sm, k) == old(smHas(sm, k)) && sameEntry(smEntry(sm, k), old(smEntry(sm, k)))
+//@   ensures [C14] #only-expired result2 ==> old(smHas(sm, key)) && conflictOK(old(smEntry(sm, key)), conflict) && !old(smEntry(sm, key).expiration).IsZero() && !old(smEntry(sm, key).expiration).After(now)
+//@   ensures [C14,C02] #removed result2 ==> !smHas(sm, key) && gcSameRef(result0, old(smEntry(sm, key).value)) && result1 == old(smEntry(sm, key).expiration)
+//@   ensures [C14] #kept !result2 ==> smHas(sm, key) == old(smHas(sm, key)) && sameEntry(smEntry(sm, key), old(smEntry(sm, key)))
+
 //@ func (sm *shardedMap) Update(newItem *Item[V]) (V, bool)
+//@   lockof shardOf(sm, newItem.Key)
 //@   requires wfSharded(sm) && newItem != nil && bucketDurationSecs > 0
 //@   modifies shardOf(sm, newItem.Key).data[*], sm.expiryMap.buckets[*], sm.expiryMap.buckets[*][*]
 //@   ensures [C01,C13] #others forall k uint64 :: k != newItem.Key ==> smHas(sm, k) == old(smHas(sm, k)) && sameEntry(smEntry(sm, k), old(smEntry(sm, k)))
@@ -559,3 +585,22 @@ package ristretto
 //@   ensures [C17] #dropcount c != nil && c.Metrics != nil ==> mtot(c.Metrics, dropSets) == old(mtot(c.Metrics, dropSets))+ite(!result && old(isOpen(c)) && ttl >= 0, uint64(1), uint64(0))
 //@   ensures [C17] #others-metrics forall q *Metrics, u metricType :: u != dropSets ==> mtot(q, u) == old(mtot(q, u))
 //@   ensures [C06] #accepted result && gcTail(c.setBuf) == old(gcTail(c.setBuf)) ==> old(smHas(cacheSM(c), khash(c, key))) && conflictOK(old(smEntry(cacheSM(c), khash(c, key))), kconf(c, key)) && smEntry(cacheSM(c), khash(c, key)).key == khash(c, key) && gcSameRef(smEntry(cacheSM(c), khash(c, key)).value, value)
+
+// ---------------------------------------------------------------- ttl.go: the sweep (C14)
+//
+// cleanup runs on the applier goroutine while clients keep calling Update/Del on the
+// shards, so it is verified with `yields`: before each of its atomic steps the shard,
+// the policy and the expiry index may have been changed by other goroutines.
+//@ func (m *expirationMap) cleanup(store store[V], policy *defaultPolicy[V], onEvict func(item *Item[V])) int
+//@   yields
+//@   noframe
+//@   requires bucketDurationSecs > 0 && (m == nil || (wfSharded(store.(*shardedMap[V])) && store.(*shardedMap[V]).expiryMap == m && policy != nil && (policy.metrics == nil || wfMetrics(policy.metrics)) && policy.evict.metrics == policy.metrics))
+//@   loop 1 modifies m.buckets[*]
+//@   loop 1 invariant #frontier m.lastCleanedBucketNum+1 <= bucketNum
+//@   loop 1 invariant #lockinv m.buckets != nil && (forall b int64 :: gcHas(m.buckets, b) ==> m.buckets[b] != nil && gcAllocated(m.buckets[b])) && forall b1, b2 int64 :: gcHas(m.buckets, b1) && gcHas(m.buckets, b2) && b1 != b2 ==> !gcSameRef(m.buckets[b1], m.buckets[b2])
+//@   loop 1 invariant #grabbed forall b int64 :: gcHas(m.buckets, b) ==> b >= bucketNum
+//@   loop 1 invariant #slice gcFresh(buckets) || cap(buckets) == 0
+//@   loop 2 modifies allmaps(store.(*shardedMap[V]).shards[0].data), m.buckets[*], m.buckets[*][*], policy.evict.used, policy.evict.keyCosts[*], gcMtot[*]
+//@   loop 3 modifies allmaps(store.(*shardedMap[V]).shards[0].data), m.buckets[*], m.buckets[*][*], policy.evict.used, policy.evict.keyCosts[*], gcMtot[*]
+//@   at call onEvict#1 assert [C14] #reported ok && !expr.IsZero() && !expr.After(now) && !smHas(store.(*shardedMap[V]), key)
+//@   ensures [C14] #frontier-advanced m != nil ==> m.lastCleanedBucketNum == cleanupBucket(gcNow())
